@@ -232,7 +232,7 @@ where
 }
 
 pub fn run(ctx: &Ctx, rep: &mut Report) {
-    for c in ctx.case_ids("inject", 500, 50_000) {
+    for c in ctx.case_ids("inject", 500, 1_000_000) {
         let mut g = ctx.rng("inject", c);
         if c % 2 == 0 {
             case::<f64>(ctx, rep, c, &mut g);
@@ -240,7 +240,7 @@ pub fn run(ctx: &Ctx, rep: &mut Report) {
             case::<f32>(ctx, rep, c, &mut g);
         }
     }
-    for c in ctx.case_ids("freq", 60, 3000) {
+    for c in ctx.case_ids("freq", 60, 30_000) {
         let mut g = ctx.rng("freq", c);
         if c % 2 == 0 {
             freq_case::<f64>(rep, c, &mut g);
